@@ -369,11 +369,11 @@ Section Handler.
               | SRight => if u32_max <? l + r then Err ParLenOverflow else Ok (l + r)
               end;
     if u32_max <? s_pos s + len then Err ParPosOverflow else
-    match sg with
-    | SLeft => Ok {| cs_pos := s_pos s + len; cs_len := len |}
-    | SRight => if subtrace_len s <? len then Err ParLenUnderflow
-                else Ok {| cs_pos := s_pos s + len; cs_len := subtrace_len s - len |}
-    end.
+    (* since the fix of the left window: both subgraphs leave the slider at `remaining window - subgraph`
+       (before: SLeft => cs_len := len, which made the swallowed set_position_and_len fail when
+       left_size > number of states after the left subtree, so the slider stayed inside the left window) *)
+    if subtrace_len s <? len then Err ParLenUnderflow
+    else Ok {| cs_pos := s_pos s + len; cs_len := subtrace_len s - len |}.
 
   Definition par_prepare_sliders (f : par_fsm) (sg : subgraph) (k : keeper) : res keeper :=
     let pl := match sg with SLeft => fst (pf_prev f) | SRight => snd (pf_prev f) end in
